@@ -58,6 +58,19 @@ EvProbe ==
        \cup (IF v_list = {} /\ ~(E.res.kind = "Err" /\ E.res.err = "SymbolListEmpty") THEN {"C12.emptyListError"} ELSE {})
   /\ v_l' = v_l + 1 /\ UNCHANGED <<v_c, v_list>>
 
+\* n digits in ASCII mode need ceil(n/2) codewords; 3m X12 characters in X12 mode need 2m+1 codewords (latch + m pairs; an
+\* unlatch before the padding only if the symbol is not full, which never changes the symbol that is first large enough)
+ProbeNeed(kind, n) == IF kind = "ProbeDigits" THEN (n + 1) \div 2 ELSE IF n = 0 THEN 0 ELSE 2 * n + 1
+EvProbe2 ==
+  /\ (IsEvent("ProbeDigits") \/ IsEvent("ProbeX12"))
+  /\ LET want == FirstBigEnough(E.list, ProbeNeed(E.ev, E.n)) IN
+     v_fails' = v_fails \cup ListFails(v_list)
+       \cup (IF E.res.kind \notin {"Ok", "Err"} THEN {"C12.probePanic"} ELSE {})
+       \cup (IF SeqSet(E.list) = v_list /\ want # "None" /\ ~(E.res.kind = "Ok" /\ E.res.size = want) THEN {"C12.pickedSymbol"} ELSE {})
+       \cup (IF SeqSet(E.list) = v_list /\ want = "None" /\ v_list # {} /\ ~(E.res.kind = "Err" /\ E.res.err = "TooMuchOrIllegalData") THEN {"C12.pickedSymbol"} ELSE {})
+       \cup (IF v_list = {} /\ ~(E.res.kind = "Err" /\ E.res.err = "SymbolListEmpty") THEN {"C12.emptyListError"} ELSE {})
+  /\ v_l' = v_l + 1 /\ UNCHANGED <<v_c, v_list>>
+
 \* catalogue attributes
 EvAttr ==
   /\ IsEvent("Attr")
@@ -75,7 +88,7 @@ EvAttr ==
 EvPanic == /\ IsEvent("Panic") /\ v_fails' = v_fails \cup {"C12.panic"} /\ v_l' = v_l + 1 /\ UNCHANGED <<v_c, v_list>>
 
 Next == EvDefault \/ EvExtended \/ EvWhitelist \/ EvExtend \/ EvSquare \/ EvRect \/ EvWidth \/ EvHeight
-        \/ EvContains \/ EvProbe \/ EvAttr \/ EvPanic
+        \/ EvContains \/ EvProbe \/ EvProbe2 \/ EvAttr \/ EvPanic
 
 Terminal == v_l = Len(Events) + 1
 \* all 48 sizes must have been observed in the attributes case
